@@ -100,7 +100,7 @@ def generate(rng, tier, idx, force=None):
         elif r < 0.72:
             ops.append(["delete_module"])
         elif r < 0.82:
-            ops.append(["replace_magic"])
+            ops.append(["replace_magic", rng.choice((7, 9, 11, 99))])  # an older *or newer* generator version
         else:
             ops.append(["advance", rng.choice((1, 2, 5)) if not sub else rng.choice((0.1, 0.5, 0.999, 1, 1.001, 2, 5))])
     ops.append(["construct"])
@@ -340,7 +340,8 @@ class Driver:
             data = self.read_mod()
             c = self.classify(data)
             if c and c["complete"]:
-                new = re.sub(rb"_magic_number = \d+", b"_magic_number = 7", data, count=1)
+                other = op[1] if len(op) > 1 else 7
+                new = re.sub(rb"_magic_number = \d+", b"_magic_number = %d" % other, data, count=1)
                 new = new.replace(b"from mako import runtime", b"# written by another generator version\nfrom mako import runtime", 1)
                 self.world.put_file(self.modpath, new)
         elif name == "construct":
